@@ -147,8 +147,16 @@ impl Writer {
 
 //@extract src/writer.rs | impl<D: Distance> Writer<D> | clear_db_and_create_a_single_leaf
 //@hint before <<<let mut roots = Vec::new();>>>
-        proof { assert forall|k: AKey| Sel::Rng(Bound::Incl(tkey(self.index, 0)), Bound::Incl(tkey(self.index, u32::MAX))).has(k) <==> (k.index == self.index && k.kind == NodeMode::Tree) by { lemma_tree_range(self.index, k); } }
-        assert(same_except(old(wtxn).view(), wtxn.view(), self.index, true, false, false, true));
+        proof {
+            let v0 = old(wtxn).view(); let v1 = wtxn.view();
+            assert forall|k: AKey| !(k.index == self.index && (k.kind == NodeMode::Tree || k.kind == NodeMode::Metadata))
+                implies (#[trigger] v0.contains_key(k) == v1.contains_key(k) && (v0.contains_key(k) ==> v0[k] == v1[k])) by {
+                lemma_tree_range(self.index, k);
+                assert(v1.contains_key(k) == v1.contains_key(k));
+            }
+            assert forall|k: AKey| k.index == self.index && k.kind == NodeMode::Tree implies !v1.contains_key(k) by { lemma_tree_range(self.index, k); }
+            assert(same_except(v0, v1, self.index, true, false, false, true));
+        }
 //@hint before <<<let version = Version {>>>
         assert(same_except(old(wtxn).view(), wtxn.view(), self.index, true, false, false, true));
 //@subst
